@@ -163,7 +163,7 @@ def sugar(rnd, d: int = 0, allow_bool: bool = True, multiline: bool = False) -> 
         return Sugar(o + pad + sep.join(words) + pad + c, f"__xonsh__.{fn}({', '.join(trans)})", "atom", "Call", o + ".." + c)
     if k == "search":
         pre = rnd.choice(["", "", "r", "g", "p", "f", "rp", "gf", "@foo", "@"])
-        body = rnd.choice([".*", "*.py", "a b", "x\\\\d+", "[a-z]", "a/b", ""])
+        body = rnd.choice([".*", "*.py", "a b", "x\\\\d+", "[a-z]", "a/b", "", "a\\`b", "\\`.*\\`", "[\\`x]+\\.txt", "\\w+\\`\\d"])
         t = f"{pre}`{body}`"
         return Sugar(t, f"__xonsh__.pathsearch({t!r})", "atom", "Call", "backtick")
     if k == "pstr":
@@ -250,7 +250,7 @@ import re as _re
 
 WORD_ALPHABET = "abcxyzQ019_-./=:,+%^~*<>|&;@é"
 CURATED_WORDS = ["--opt=val", "1e5x", "a.b/c", "2>&1", "..", ">>=", "**", "...", "1.2.3", "0x", "-la", "a=b", "~/x", "*.py", "a,b", "x:y", "1_000", "1__0", "a->b", ":=", "&&", "||", "|", ">", ">>", "<", "&", ";", "a;b",
-                 "@", "a@b", "+x", "%d", "^a", "0b2", "1.", ".5", "1j", "1e", "e1", "a.b.c", "//", "a//b", "==", "!=".replace("!", "="), "<=", "-", "--", "=", "ñ", "é.txt", "x1y2", "__a__", "match", "case", "type", "_", "ﬁle", "µ", "ｆｏｏ.txt", "1º", "ªb", "ﬀ-x", "ǅ", "a|b", "2>", "1>&2", ">&", "a&b", "@@", "@a", "a@"]
+                 "@", "a@b", "+x", "%d", "^a", "0b2", "1.", ".5", "1j", "1e", "e1", "a.b.c", "//", "a//b", "==", "!=".replace("!", "="), "<=", "-", "--", "=", "ñ", "é.txt", "x1y2", "__a__", "match", "case", "type", "_", "ﬁle", "µ", "ｆｏｏ.txt", "1º", "ªb", "ﬀ-x", "ǅ", "a|b", "2>", "1>&2", ">&", "a&b", "@@", "@a", "a@", "ªs", "ºr", "nºt", "ｉｆ", "ｉｎ", "𝐢𝐬", "x/ªs.txt", "ｄｅｆ", "ｆｏｒ"]
 QUOTED_PIECES = ['"""first\nsecond"""', "'''x\n  y\nz'''", '"a\\\nb"', '"a b"', "'c'", '"x,y"', "'(z'", 'r"\\d"', '"]"', "b'q'", "u'u'", "''", '"$X"', "'#'", '"""t q"""', "R'''a'''", "'a\\'b'", '"`"', "'?'", "'!'"]
 _IDENT = _re.compile(r"[^\W\d]\w*")
 _KW = set(_keyword.kwlist)
@@ -337,7 +337,8 @@ def gen_cmd(rnd, d=0, forms=None, newline_ws=False) -> Cmd:
         else:
             w = [("plain", "ls", None)]
         words.append(w)
-    seps = [" ", " ", "  ", "\t", "   ", " \t "] + (["\n", " \n  ", "\n=col", "\n=col"] if newline_ws else [])
+    # (a form feed between words is whitespace like any other, for CPython's tokenizer and for this one)
+    seps = [" ", " ", "  ", "\t", "   ", " \t ", "\x0c", " \x0c", "\x0c\t "] + (["\n", " \n  ", "\n=col", "\n=col"] if newline_ws else [])
     text = o + rnd.choice(["", "", " ", "  "])
     for i, w in enumerate(words):
         if i:
@@ -496,7 +497,10 @@ def with_block(rnd, ind: str, depth=0) -> list[str]:
             ln = rnd.choice(["s = 'x\fy'", "t = 'p\x1cq'  # r\x85s", "u = '\u2028'", "a b c", "x = 1", "echo $HOME > out.txt", "ls -la | grep 'x y'", "print(\"it's\")", "z = (1, 2)", "import os", "{'k': v}", "pass", "git commit -m 'm n'"])
             lines.append(ind + ln)
         elif r < 0.7:
-            lines.append(ind + rnd.choice(["# comment", "#c, (", "# 'quote"]))
+            # (a comment may sit at any column, also to the left of the block it is in -- not as the block's first line,
+            # which sets the block's indentation, and not as its last, where it would read as the next statement's)
+            cind = rnd.choice([ind, ind, ind, ind[: len(ind) // 2], "", ind + " "]) if lines and depth == 0 else ind
+            lines.append(cind + rnd.choice(["# comment", "#c, (", "# 'quote"]))
         elif r < 0.78 and lines:
             lines.append(rnd.choice(["", "", ind, "   "]) if True else "")
         elif r < 0.84:
@@ -517,7 +521,7 @@ def with_block(rnd, ind: str, depth=0) -> list[str]:
             lines.append(ind + rnd.choice(["if y:", "for i in j:", "with q as t:", "def g():", "else:", "while k:"]))
             lines.extend(with_block(rnd, ind + rnd.choice(["    ", "  ", "\t"] if "\t" not in ind else ["\t"]), depth + 1))
     # a block never ends in blank lines here (trailing blanks are added by the caller)
-    while lines and lines[-1].strip() == "":
+    while lines and (lines[-1].strip() == "" or (lines[-1].lstrip().startswith("#") and not lines[-1].startswith(ind))):
         lines.pop()
     if depth == 0 and rnd.random() < 0.15:
         lines.insert(0, rnd.choice(["", ind + "# leading comment", "   "]))
